@@ -31,6 +31,9 @@ type c28Case struct {
 	Opt      int    `json:"opt"`     // option sample
 	Backend  string `json:"backend"` // vfs | memfs
 	Cycles   int    `json:"cycles,omitempty"` // start / talk / stop rounds on the same AbsfsNFS (0 and 1: one)
+	// QuietMs > 0: nobody connects for that long after the start; then the client talks, stays away for as long
+	// again and talks once more. A server that was started keeps serving until it is stopped.
+	QuietMs int `json:"quiet_ms,omitempty"`
 }
 
 func freePort() int {
@@ -165,14 +168,49 @@ func runC28(tb stat.TB, c c28Case) {
 			stop = func() { srv.Stop() }
 			addr = fmt.Sprintf("127.0.0.1:%d", srv.GetPort())
 		}
+		if c.QuietMs > 0 {
+			time.Sleep(time.Duration(c.QuietMs) * time.Millisecond)
+		}
 		stage, err := c28Talk(addr)
+		if err == nil && c.QuietMs > 0 {
+			time.Sleep(time.Duration(c.QuietMs) * time.Millisecond)
+			if stage, err = c28Talk(addr); err != nil {
+				stage = "second conversation, " + stage
+			}
+		}
 		stop()
+		if err != nil && c.QuietMs > 0 {
+			stat.Violate(tb, id, check, "server-stops-serving-after-quiet-period:"+c.Path, c, "server started through %s, nobody connected for %d ms: a conformant record-marking client then failed at %s: %v", c.Path, c.QuietMs, stage, err)
+			return
+		}
 		if err != nil {
 			stat.Violate(tb, id, check, "start-path-does-not-speak-record-marked-rpc:"+c.Path, c, "server started through %s (round %d of %d on the same AbsfsNFS, debug=%v explicit port=%v backend=%s): a conformant record-marking client failed at %s: %v", c.Path, round, cycles, c.Debug, c.Explicit, c.Backend, stage, err)
 			return
 		}
 	}
+	if c.QuietMs > 0 {
+		stat.Case(c, true, "path_"+c.Path, "quiet_period_before_first_client")
+		return
+	}
 	stat.Case(c, true, "path_"+c.Path)
+}
+
+// TestC28Quiet: every start path, with quiet periods before and between the conversations (one path per shard).
+func TestC28Quiet(t *testing.T) {
+	stat.SetProperty("C28")
+	stat.SetDisjoint(true)
+	quiets := []int{4500}
+	if thorough() {
+		quiets = []int{4500, 12000, 33000}
+	}
+	for i, p := range []string{"export", "listen", "portmapper"} {
+		if i%nshards != shard {
+			continue
+		}
+		for _, q := range quiets {
+			runC28(t, c28Case{Path: p, Explicit: q == 12000, Backend: "vfs", QuietMs: q})
+		}
+	}
 }
 
 func init() {
